@@ -553,6 +553,8 @@ func VH_C04_TextScanner() {
 	vAssert(last.Pos.Offset == len(in), "C04: EOF is not positioned at the end of the input")
 }
 
+func VH_C03_EmptyState() { vhC03(vhDefEmptyState()) }
+
 func VH_C04_CaselessNames() { vhC04In(vhDefCaselessNames(), vhInputASCII()) }
 
 func VH_C03_CaselessNames() { vhC03In(vhDefCaselessNames(), vhInputASCII()) }
